@@ -5,6 +5,8 @@ bash or to the sandbox helper.  Nothing in /repo is modified; the recording wrap
 from the outside.
 
 usage: c13_child.py <repo> <project-dir> <json list: bob arguments> [<capture-file>]
+With C13_STDIN=socket|pipe|null in the environment the child first replaces its own standard input by a connected
+socket / an empty pipe / /dev/null (and removes the variable), as a build started by sshd, a CI agent or cron has it.
 """
 import json
 import os
@@ -17,6 +19,18 @@ def main():
     sys.path.insert(0, os.path.join(repo, "pym"))
     sys.dont_write_bytecode = True
     os.chdir(project)
+    kind = os.environ.pop("C13_STDIN", None)
+    if kind == "socket":
+        import socket
+        a, b = socket.socketpair()
+        os.dup2(a.fileno(), 0)
+        globals()["_keep"] = (a, b)
+    elif kind == "pipe":
+        r, w = os.pipe()
+        os.dup2(r, 0)
+        globals()["_keep"] = (r, w)
+    elif kind == "null":
+        os.dup2(os.open(os.devnull, os.O_RDONLY), 0)
     if capture:
         import asyncio.base_events as be
         orig = be.BaseEventLoop.subprocess_exec
